@@ -313,6 +313,9 @@ func c07Run(c *Ctx, cs *c07Case) string {
 		case rerr == io.EOF:
 			tok = "eof"
 			dead++
+		case rerr == io.ErrUnexpectedEOF && sc.closed && !wasClosed:
+			tok = "cut" // the stream ended inside a frame: reported, and the connection closed
+			dead++
 		default:
 			if ne, ok := rerr.(net.Error); ok && ne.Timeout() {
 				if sc.blocked {
@@ -397,6 +400,7 @@ func checkC07(c *Ctx) {
 	alternatingReads(c, "C07")
 	cipherLooksLikeHeader(c, "C07")
 	waitingReadCoalesced(c, "C07")
+	cutInsideFrame(c, "C07")
 	c03Rekey(c)    // a second pair-verify on an encrypted connection (reads and writes change keys at the right moment)
 	c03Handover(c) // reads that are waiting while the first cryptographer is negotiated
 	c.SetRule("one case = (message lengths, segmentation of the ciphertext stream, idle/close events, caller buffer sizes) read " +
